@@ -669,6 +669,7 @@ func c19(c *Ctx) {
 		r.Check("BackendHandler:add-len-backends", okAdd, bh.Pos(), "eventWg.Add(len(bh.backends)) before the loop")
 		// one goroutine per backend, in a range over bh.backends, on the semaphore-acquired branch
 		var gos []*ssa.Go
+		var dispatchedPhi *ssa.Phi
 		eachInstr(bh, func(in ssa.Instruction) {
 			if g, ok := in.(*ssa.Go); ok {
 				gos = append(gos, g)
@@ -676,10 +677,24 @@ func c19(c *Ctx) {
 		})
 		if r.Check("BackendHandler:one-go-site", len(gos) == 1, bh.Pos(), fmt.Sprintf("%d go statements", len(gos))) {
 			g := gos[0]
-			a := g.Call.Args
-			okB := len(a) == 1 && strings.HasPrefix(pathOf(a[0]), "bh.backends[") && strings.Contains(pathOf(a[0]), "rangeindex")
-			r.Check("BackendHandler:goroutine-gets-this-backend", okB, g.Pos(), "goroutine argument: "+pathOf(a[0]))
-			// the goroutine calls internalDispatchEvent(ctx, b, e) with its parameter and the event
+			// the goroutine calls internalDispatchEvent(ctx, b, e) with this iteration's backend (handed over
+			// as an argument or captured per iteration) and the event
+			isLoopBackend := func(v ssa.Value) bool {
+				ld, ok := v.(*ssa.UnOp)
+				if !ok || ld.Op != token.MUL {
+					return false
+				}
+				ia, ok := ld.X.(*ssa.IndexAddr)
+				if !ok || pathOf(ia.X) != "bh.backends" {
+					return false
+				}
+				idx := ia.Index
+				if b := asBinOp(idx, token.ADD); b != nil {
+					idx = b.X
+				}
+				ph, ok := idx.(*ssa.Phi)
+				return ok && isLoopHead(ph.Block())
+			}
 			if mc, ok := g.Call.Value.(*ssa.MakeClosure); ok {
 				cl := mc.Fn.(*ssa.Function)
 				n := 0
@@ -687,7 +702,9 @@ func c19(c *Ctx) {
 					if staticCallee(cc) == ide {
 						n++
 						aa := cc.Common().Args
-						r.Check("BackendHandler:dispatches-to-own-backend", paramIndex(cl, aa[2]) == 0 && valueName(aa[3]) == "e", cc.Pos(), "internalDispatchEvent(ctx, b, e)")
+						org := goValueOrigin(g, cl, aa[2])
+						r.Check("BackendHandler:goroutine-gets-this-backend", org != nil && isLoopBackend(org), g.Pos(), "the goroutine's backend is "+pathOf(org))
+						r.Check("BackendHandler:dispatches-to-own-backend", org != nil && valueName(aa[3]) == "e", cc.Pos(), "internalDispatchEvent(ctx, b, e)")
 					}
 				}
 				m := countOnPaths(cl, func(in ssa.Instruction) bool {
@@ -700,12 +717,15 @@ func c19(c *Ctx) {
 			okInc := false
 			for _, in := range g.Block().Instrs {
 				if b, ok := in.(*ssa.BinOp); ok && b.Op == token.ADD {
-					if ph, ok := b.X.(*ssa.Phi); ok && ph.Comment == "eventsDispatched" {
-						okInc = true
+					if ph, ok := b.X.(*ssa.Phi); ok && isLoopHead(ph.Block()) {
+						if one, isC := constInt(b.Y); isC && one == 1 {
+							dispatchedPhi = ph
+							okInc = true
+						}
 					}
 				}
 			}
-			r.Check("BackendHandler:counts-dispatched", okInc, g.Pos(), "eventsDispatched++ with each goroutine")
+			r.Check("BackendHandler:counts-dispatched", okInc, g.Pos(), "the count of started goroutines is incremented with each goroutine")
 			// acquired the semaphore on this branch
 			okSem := false
 			eachInstr(bh, func(in ssa.Instruction) {
@@ -726,7 +746,7 @@ func c19(c *Ctx) {
 		okComp := false
 		for _, a := range adds {
 			if b := asBinOp(a.Common().Args[1], token.SUB); b != nil {
-				if ph, ok := b.X.(*ssa.Phi); ok && ph.Comment == "eventsDispatched" && strings.Contains(pathOf(b.Y), "builtin len") {
+				if ph, ok := b.X.(*ssa.Phi); ok && ph == dispatchedPhi && strings.Contains(pathOf(b.Y), "builtin len") {
 					// followed by return
 					if _, isRet := a.Block().Instrs[len(a.Block().Instrs)-1].(*ssa.Return); isRet {
 						okComp = true
@@ -1098,4 +1118,57 @@ func cloudReleaseRule(c *Ctx, r *Rule, hi *ssa.Function, fns map[string]*ssa.Fun
 			isParked := func(v ssa.Value) bool { return v == ssa.Value(lk) }
 			r.Check("release:"+kind.field+":guard", len(fs) == 1 && (knownNonNil(fs, isParked) || knownNonEmpty(fs, isParked)), g.Pos(), "released under exactly one condition (something is parked): "+guard)
 		}
+}
+
+// goValueOrigin: v is used inside the function literal cl started by the go statement g; returns the
+// value in the enclosing function it stands for - the actual argument for a parameter, or the value
+// assigned to the captured variable (which must be assigned exactly once) - or nil.
+func goValueOrigin(g *ssa.Go, cl *ssa.Function, v ssa.Value) ssa.Value {
+	mc, _ := g.Call.Value.(*ssa.MakeClosure)
+	switch x := v.(type) {
+	case *ssa.Parameter:
+		for i, p := range cl.Params {
+			if p == x && i < len(g.Call.Args) {
+				return g.Call.Args[i]
+			}
+		}
+	case *ssa.UnOp:
+		if x.Op != token.MUL {
+			return nil
+		}
+		// a parameter spilled to the stack inside the closure
+		if al, ok := x.X.(*ssa.Alloc); ok {
+			for _, ref := range referrers(al) {
+				if st, ok := ref.(*ssa.Store); ok && st.Addr == ssa.Value(al) {
+					if p, isP := st.Val.(*ssa.Parameter); isP {
+						return goValueOrigin(g, cl, p)
+					}
+				}
+			}
+		}
+		fv, ok := x.X.(*ssa.FreeVar)
+		if !ok || mc == nil {
+			return nil
+		}
+		for i, f := range cl.FreeVars {
+			if f == fv && i < len(mc.Bindings) {
+				cell, ok := mc.Bindings[i].(*ssa.Alloc)
+				if !ok {
+					return nil
+				}
+				var val ssa.Value
+				n := 0
+				for _, ref := range referrers(cell) {
+					if st, ok := ref.(*ssa.Store); ok && st.Addr == ssa.Value(cell) {
+						n++
+						val = st.Val
+					}
+				}
+				if n == 1 {
+					return val
+				}
+			}
+		}
+	}
+	return nil
 }
